@@ -190,6 +190,19 @@ def hvsr_relations(run, h):
                 run.violation("hvsr:azimuthal-is-stack", f"azimuthal result at {a} deg differs from the single-azimuth result", dict(kind="hvsr-rel", a=a))
         if list(azi.azimuths) != az_list:
             run.violation("hvsr:azimuthal-azimuths", f"azimuths {azi.azimuths}", dict(kind="hvsr-rel"))
+        # azimuth lists in an order of the user's choosing (rotations of a sorted list, shuffles, descending): entry i of the result
+        # is the single-azimuth curve AT THE AZIMUTH THE RESULT REPORTS FOR ENTRY i, and the reported azimuths are the requested ones
+        for az_any in ([45.0, 90.0, 135.0, 0.0], [100.0, 20.0, 160.0, 60.0, 140.0], [150.0, 100.0, 50.0], [90.0, 0.0, 45.0])[r_ % 2::2]:
+            azi_ = proc([rec], h.HvsrAzimuthalProcessingSettings(azimuths_in_degrees=list(az_any), **kw))
+            if sorted(map(float, azi_.azimuths)) != sorted(az_any) or len(azi_.hvsrs) != len(az_any):
+                run.violation("hvsr:azimuthal-azimuths", f"asked for {az_any}, the result reports {list(azi_.azimuths)}", dict(kind="hvsr-rel", az=az_any))
+                continue
+            for a, x in zip(azi_.azimuths, azi_.hvsrs):
+                y = proc([rec], h.HvsrTraditionalSingleAzimuthProcessingSettings(azimuth_in_degrees=float(a), **kw)).amplitude
+                if not np.array_equal(x.amplitude, y):
+                    run.violation("hvsr:azimuthal-is-stack", f"azimuths given as {az_any}: the entry reported at {a} deg is not the single-azimuth result at {a} deg",
+                                  dict(kind="hvsr-rel", a=float(a), az=az_any))
+            run.case(("az-any", r_, tuple(az_any)))
         for az_rot in (az_list, [10.0, 30.0, 50.0], [35.0, 80.0], [20.0]):      # also sets that are not symmetric under a -> 180 - a
           st_all = np.array([proc([rec], h.HvsrTraditionalSingleAzimuthProcessingSettings(azimuth_in_degrees=a, **kw)).amplitude[0] for a in az_rot])
           prev = None
